@@ -7,8 +7,10 @@ for version v does not touch the component of w ≠ v.  On disk that rests on tw
      injective) — every file-system effect other than the cleanup names its target exactly;
  (2) the cleanup before the extraction removes, in the parent of the extraction directory
      (`<cache>/mod/extract/<escaped path minus last element>/`), the entry `base` itself
-     (`RemoveAll(dir)`, only when the directory is partial) and every entry whose name starts
-     with `base ++ ".tmp-"` (`strings.HasPrefix(entry.Name(), tmpPrefix)`), where
+     (`RemoveAll(dir)`, only when the directory is partial) and every entry whose name is
+     `base ++ ".tmp-"` followed by decimal digits (`strings.CutPrefix(entry.Name(), tmpPrefix)`
+     + `isAllDigits`) and that is not itself named `<elem>@<valid version>` (`isVersionDir`,
+     01b58aa; before f81b1df: every name with that prefix), where
      `base = filepath.Base(dir) = <last path element>@<version>`.
 This file models (2); byte strings are `List Nat` as in `Model/Semver.lean`.
 -/
@@ -25,9 +27,46 @@ def tmpSuffixText : String := ".tmp-"
 /-- `strings.HasPrefix(name, pre)` -/
 def hasPrefix (pre : Name) : Name → Bool := fun name => pre.isPrefixOf name
 
+/-- `isAllDigits` of fetch.go: a non-empty string of decimal digits -/
+def isAllDigits (s : Name) : Bool := !s.isEmpty && s.all fun c => decide (48 ≤ c) && decide (c ≤ 57)
+
+/-- `strings.CutPrefix(name, pre)` -/
+def cutPrefix (pre name : Name) : Option Name :=
+  if pre.isPrefixOf name then some (name.drop pre.length) else none
+
+/-- `strings.Cut(name, "@")`: the part after the first '@' (64), if there is one -/
+def afterAt : Name → Option Name
+  | [] => none
+  | c :: r => if c = 64 then some r else afterAt r
+
+/-- `strings.ReplaceAll(s, "!", "")` -/
+def stripBang (s : Name) : Name := s.filter (· != 33)
+
+/-- `isVersionDir` of fetch.go: the entry is named `<module path element>@<version>` (in an
+escaped version an upper-case letter is "!" + the lower-case letter; irrelevant for validity) -/
+def isVersionDir (name : Name) : Bool :=
+  match afterAt name with
+  | some escVers => Semver.isValid (stripBang escVers)
+  | none => false
+
 /-- the entries of the parent directory that the cleanup for the version whose extraction
-directory is called `base` removes -/
+directory is called `base` removes (since 01b58aa): `base` itself, and `base.tmp-<digits>`
+unless that entry is itself named after a version -/
 def cleanupRemoves (base name : Name) : Bool :=
+  name == base ||
+  (match cutPrefix (base ++ tmpSuffix) name with
+   | some suffix => isAllDigits suffix && !isVersionDir name
+   | none => false)
+
+/-- the match of f81b1df (between the two repairs): `base.tmp-<digits>` -/
+def cleanupRemovesDigits (base name : Name) : Bool :=
+  name == base ||
+  (match cutPrefix (base ++ tmpSuffix) name with
+   | some suffix => isAllDigits suffix
+   | none => false)
+
+/-- the match BEFORE f81b1df: every name with the prefix `base.tmp-` -/
+def cleanupRemovesOld (base name : Name) : Bool :=
   name == base || hasPrefix (base ++ tmpSuffix) name
 
 /-- `filepath.Base(dir)` for module path element `elem` and version `ver`: elem ++ "@" ++ ver -/
@@ -35,7 +74,7 @@ def dirBase (elem ver : Name) : Name := elem ++ [64] ++ ver
 
 /-- the watched removals of Fetch with their guards, in source order (see Bridge/C16) -/
 def goFetchRemoves : List String :=
-  [ "RemoveAll(filepath.Join(parentDir, entry.Name())) if strings.HasPrefix(entry.Name(), tmpPrefix)",
+  [ "RemoveAll(filepath.Join(parentDir, entry.Name())) if ok && isAllDigits(suffix) && !isVersionDir(entry.Name())",
     "RemoveAll(dir) if dirExists",          -- lRmAll
     "RemoveAll(dir) if err != nil" ]        -- eRmAll (Unzip failed)
 
@@ -43,6 +82,7 @@ def goFetchDefs : List String :=
   [ "_, dirExists := dirErr.(*downloadDirPartialError)",
     "parentDir := filepath.Dir(dir)",
     "tmpPrefix := filepath.Base(dir) + \".tmp-\"",
-    "entries, _ := os.ReadDir(parentDir)" ]
+    "entries, _ := os.ReadDir(parentDir)",
+    "suffix, ok := strings.CutPrefix(entry.Name(), tmpPrefix)" ]
 
 end CueVerif.ModCache
